@@ -122,7 +122,8 @@ class MaxOf(AbsVal):
         # max(0, len(a), ...) == max(len(a), ...): lengths are non-negative
         if any(x.terms and all(c > 0 and k[0] in ("len", "lines") for k, c in x.terms.items()) and x.const >= 0 for x in uniq):
             base = min(x.const for x in uniq if x.terms)
-            uniq = [x for x in uniq if x.terms or x.const > base]
+            kept = [x for x in uniq if x.terms or x.const > base]
+            uniq = kept or uniq
         self.items = uniq
 
     def __repr__(self):
@@ -180,7 +181,7 @@ def bounds(x):
         los = [bounds(i)[0] for i in x.items]
         his = [bounds(i)[1] for i in x.items]
         lo = max([l for l in los if l is not None], default=None)
-        hi = max(his) if all(h is not None for h in his) else None
+        hi = max(his) if his and all(h is not None for h in his) else None
         return lo, hi
     return None, None
 
@@ -204,6 +205,18 @@ def decide_by_bounds(d, op):
         if hi < 0 and t is ast.Eq: return False
         if hi < 0 and t is ast.NotEq: return True
     return None
+
+
+def _sym_join(it, joiner, seq):
+    parts = it.iterate(seq)
+    if not all(isinstance(p, STRINGY) for p in parts):
+        return NotImplemented
+    out = []
+    for i, p in enumerate(parts):
+        if i:
+            out.append(joiner)
+        out.append(p)
+    return Template(out)
 
 
 def mk_max(items):
@@ -236,8 +249,17 @@ class Hole(AbsVal):
             return self
         if name == "format":
             return Fmt(self, tuple(args), tuple(sorted(kwargs.items(), key=lambda kv: kv[0])))
-        if name == "splitlines":
-            return LinesOf(self)
+        if name == "splitlines" and not args:
+            return SplitList(self, "\n", lines=True)
+        if name in ("split", "rsplit") and len(args) == 1 and isinstance(args[0], str):
+            return SplitList(self, args[0])
+        if name == "join" and len(args) == 1:
+            return _sym_join(it, self, args[0])
+        if name in PREDICATES:
+            return it.fork_bool(("hole-pred", self.name, name, repr(args)), f"<{self.name}>.{name}({', '.join(map(repr, args))})")
+        if name in TRANSFORMS:
+            # a transformed copy of the text: a different symbolic string
+            return Hole(f"{self.name}.{name}({', '.join(map(repr, args))})", "derived")
         return NotImplemented
 
     def binop(self, it, op, other, reflected):
@@ -257,6 +279,45 @@ class Hole(AbsVal):
                 r = it.fork_bool(("hole-eq-const", self.name, other), f"<{self.name}> == {other!r}")
                 return r if isinstance(op, ast.Eq) else not r
         return NotImplemented
+
+
+PREDICATES = {"startswith", "endswith", "isdigit", "isdecimal", "isnumeric", "isalpha", "isspace", "isupper", "islower", "isalnum",
+              "isidentifier", "__contains__"}
+TRANSFORMS = {"strip", "lstrip", "rstrip", "lower", "upper", "title", "capitalize", "casefold", "replace", "expandtabs", "ljust", "rjust",
+              "center", "zfill", "removeprefix", "removesuffix", "swapcase", "encode", "translate"}
+
+
+class SplitList(AbsVal):
+    """``hole.split(sep)`` / ``hole.splitlines()``: a first piece and the remaining pieces.  Joining the untouched
+    pieces with the same separator gives the hole back."""
+
+    def __init__(self, hole, sep, lines=False):
+        self.hole, self.sep, self.lines = hole, sep, lines
+        self.first = Hole(f"{hole.name}.split({sep!r})[0]", "split-first")
+        self.rest = Hole(f"{hole.name}.split({sep!r})[1:]", "split-rest")
+        self.first.split_of = self.rest.split_of = (hole, sep)
+
+    def __repr__(self):
+        return f"split({self.hole!r}, {self.sep!r})"
+
+    def call_method(self, it, name, args, kwargs):
+        if name == "__len__":
+            return Lin({("lines", self.hole.name): 1}, 0)
+        if name == "__iter__":
+            return AList([self.first, self.rest], tag="split")
+        return NotImplemented
+
+    def subscript(self, it, idx):
+        if idx == 0:
+            return self.first
+        if isinstance(idx, slice) and idx.start == 1 and idx.stop is None and idx.step is None:
+            return AList([self.rest], tag="split-rest")
+        if isinstance(idx, slice) and idx.start is None and idx.stop is None:
+            return AList([self.first, self.rest], tag="split")
+        return NotImplemented
+
+    def truth(self, it):
+        return True
 
 
 class LinesOf(AbsVal):
@@ -344,11 +405,25 @@ class Template(AbsVal):
     def __hash__(self):
         return hash(repr(self))
 
+    @property
+    def name(self):
+        return repr(self)
+
     def call_method(self, it, name, args, kwargs):
         if name == "__type__":
             return BuiltinType("str")
         if name in ("__deepcopy__", "__copy__", "__str__"):
             return self
+        if name == "splitlines" and not args:
+            return SplitList(self, "\n", lines=True)
+        if name in ("split", "rsplit") and len(args) == 1 and isinstance(args[0], str):
+            return SplitList(self, args[0])
+        if name == "join" and len(args) == 1:
+            return _sym_join(it, self, args[0])
+        if name in PREDICATES:
+            return it.fork_bool(("tmpl-pred", self.name, name, repr(args)), f"{self.name}.{name}({', '.join(map(repr, args))})")
+        if name in TRANSFORMS:
+            return Hole(f"{self.name}.{name}({', '.join(map(repr, args))})", "derived")
         if name == "__len__":
             tot = Lin({}, 0)
             for p in self.pieces:
@@ -382,6 +457,11 @@ class SymHooks:
         return Unknown("fstr", "str")
 
     def join(self, it, sep, parts):
+        # sep.join(x.split(sep)) == x
+        if len(parts) == 2 and all(isinstance(p, Hole) for p in parts) and getattr(parts[0], "kind", "") == "split-first" \
+                and getattr(parts[1], "kind", "") == "split-rest" and getattr(parts[0], "split_of", None) == getattr(parts[1], "split_of", 0) \
+                and parts[0].split_of[1] == sep:
+            return parts[0].split_of[0]
         if all(isinstance(p, STRINGY) for p in parts):
             out = []
             for i, p in enumerate(parts):
